@@ -17,6 +17,10 @@ UN_PREDS = ["all_equals_zero", "any_equals_zero", "all_greater_than_zero", "any_
             "all_greater_than_or_equal_to_zero", "is_never_negative"]
 
 
+CONVERT = {"ConvertA": ("billion kcals", "million tons", "thousand tons"), "ConvertB": ("billion kcals", "thousand tons", "million tons"),
+           "ConvertC": ("billion kcals", "million tons", "million tons")}
+
+
 def fr(q):
     return Fraction(q[0], q[1])
 
@@ -107,6 +111,8 @@ def apply_op(Food, op, x, y):
         return x.get_rounded_to_decimal(3)
     if op == "MulArr":
         return x * np.array([1.0, 2.0])
+    if op in CONVERT:
+        return x.in_units(*CONVERT[op])
     raise KeyError(op)
 
 
